@@ -82,14 +82,17 @@ func main() {
 		}
 		scens = append(scens, s)
 	}
-	sizes := []int{0, 12, 33 << 10, 3 << 20}
+	sizes := []int{0, 12, 33 << 10, 64 << 10, 1 << 20, 3 << 20}
+	// the source may carry a name a copy routine could pick for its own scratch file next to the destination
+	srcNames := []string{"src.bin", "dst.bin.tmp", "src.bin", "dst.bin~", ".dst.bin.tmp", "src.bin", "dst.bin.part", "dst.bin.bak", "dst.bin.swp"}
 	runs, skipped, crossfs := 0, 0, 0
 	for rep := 0; rep < *reps; rep++ {
 		for _, s := range scens {
 			for _, size := range sizes {
-				if size == 3<<20 && rep > 0 {
+				if size >= 1<<20 && rep > 0 {
 					continue
 				}
+				srcName := srcNames[(runs+skipped)%len(srcNames)]
 				isOther := s.Scen.Dst == "otherFsMissing" || s.Scen.Dst == "otherFsFile" || s.Scen.Dst == "otherFsSymlinkToSrc"
 				if isOther && !otherOK {
 					skipped++
@@ -103,8 +106,18 @@ func main() {
 				}
 				srcBytes := make([]byte, size)
 				rng.Read(srcBytes)
+				switch pat := (runs + skipped) % 5; { // runs of zero bytes: whole file, tail, head, a hole in the middle (block-aligned)
+				case pat == 1:
+					clear(srcBytes)
+				case pat == 2:
+					clear(srcBytes[size/2:])
+				case pat == 3:
+					clear(srcBytes[:size/2])
+				case pat == 4 && size >= 8:
+					clear(srcBytes[size/4 : size/4*3])
+				}
 				dstBytes := []byte("previous destination content " + fmt.Sprint(rng.Int63()))
-				S := filepath.Join(d1, "src.bin")
+				S := filepath.Join(d1, srcName)
 				T := filepath.Join(d1, "target.bin")
 				switch s.Scen.Src {
 				case "file":
@@ -127,17 +140,17 @@ func main() {
 					case 0:
 						D = S
 					case 1:
-						D, spell = d1+"/./src.bin", "./"
+						D, spell = d1+"/./"+srcName, "./"
 					default:
 						os.Mkdir(filepath.Join(d1, "sub"), 0o755)
-						D, spell = d1+"/sub/../src.bin", "sub/.."
+						D, spell = d1+"/sub/../"+srcName, "sub/.."
 					}
 				case "symlinkToSrc":
 					D = filepath.Join(d1, "dst.lnk")
 					if rng.Intn(2) == 0 {
 						os.Symlink(S, D)
 					} else {
-						os.Symlink("src.bin", D)
+						os.Symlink(srcName, D)
 						spell = "relative link"
 					}
 				case "hardlinkToSrc":
